@@ -35,13 +35,14 @@ def tla_world(w):
     return " @@ ".join("(%d :> %s)" % (a, acc(r)) for a, r in w.items())
 
 
-def consts(fork, contracts, kinds, maxsnips, maxtx, txgas, targets, prices=(10,), maxcreates=3, tokens=None, steps=400, variety=True):
+def consts(fork, contracts, kinds, maxsnips, maxtx, txgas, targets, prices=(10,), maxcreates=3, tokens=None, steps=400, variety=True, plan=None):
     fi = FORKS.index(fork)
     q = lambda xs: "{" + ", ".join('"%s"' % x for x in xs) + "}"
     return dict(Fork=fi, Contracts=vf.tla_set(contracts), World0=tla_world(world0(contracts, tokens)), Sender=SENDER,
                 Coinbase=COINBASE, MaxSnips=maxsnips, MaxTx=maxtx, MaxCreates=maxcreates, SnipKinds=q(kinds),
                 TxGas=vf.tla_set(txgas), TxTargets=vf.tla_set(targets), BaseFee=7 if fi >= 12 else 0,
-                GasPrices=vf.tla_set(prices), StepBound=steps, TxVariety="TRUE" if variety else "FALSE")
+                GasPrices=vf.tla_set(prices), StepBound=steps, TxVariety="TRUE" if variety else "FALSE",
+                SetupPlan="<<" + ", ".join("[c |-> %d, kinds |-> %s]" % (c, q(ks)) for c, ks in (plan or [])) + ">>")
 
 
 INV = ["Conservation", "DepthBounded", "GasRules", "StaticFrozen"]
@@ -102,7 +103,7 @@ def _at(v, path):
     return v
 
 
-ALL = ["store", "tstore", "mem", "log", "env", "jump", "call", "rdata", "create", "term"]
+ALL = ["store", "tstore", "mem", "log", "env", "env2", "arith", "jump", "call", "rdata", "create", "term"]
 _NOTE = ("Trusted: Evm.tla (my reading of the Yellow Paper and the EIPs listed in its header) and the projection in "
          "harness/src/bin/evm.rs (address/token resolution, result and world read-back). Domain: the ~75 modelled opcodes "
          "(every other byte: undefined => halt, defined but unmodelled => behaviour not judged), words below 2^31 or "
@@ -156,17 +157,42 @@ def run(ctx, pid):
         res.add_tlc(r)
         return r
 
-    if pid == "C01":
-        forks = rot(FORKS, 4) if q else FORKS
-        for f in forks:
-            r = sim("c01_" + f, f, ALL)
-            replay(ctx, res, r, "c01_" + f, binary)
-        # exhaustive small alphabet
-        f = rot(["CANCUN", "LONDON", "BYZANTIUM", "FRONTIER"], 1)[0]
-        r = generate(ctx, "c01x_" + f, consts(f, [193], ["store", "term", "jump"] if q else ["store", "term", "jump", "log", "tstore"],
-                                              2, 1, [100000, 26000], [193]))
+    def planned(name, fork, contracts, plan, **kw):
+        gas = kw.pop("gas", [300000])
+        r = generate(ctx, name, consts(fork, contracts, [], 0, kw.pop("maxtx", 1), gas, kw.pop("targets", [193]),
+                                       variety=kw.pop("variety", False), plan=plan, **kw), workers=4)
         res.add_tlc(r)
-        replay(ctx, res, r, "c01x_" + f, binary)
+        return r
+
+    C3 = [193, 194, 195]
+    # targeted exhaustive products (every member of each family in every position of the plan)
+    P_STATIC = [(193, ["sfwd"]), (194, ["fwd2", "write"]), (195, ["write"])]           # writes below STATICCALL chains
+    P_NESTED = [(193, ["store"]), (193, ["fwd1"]), (193, ["rev"]), (194, ["store", "tstore"])]  # outer+committed inner, outer reverts
+    P_WARM = [(193, ["call194"]), (193, ["call194"]), (193, ["probe"]), (194, ["probe"]), (194, ["rev"])]  # access in reverted frames, again later
+    P_SINGLE = [(194, ["body"]), (193, ["store", "tstore", "mem", "log", "env", "env2", "arith", "jump", "rdata", "term", "callS", "createS"])]
+
+    if pid == "C01":
+        # every mainnet SpecId in both tiers (a fork-specific slip must not hide behind the rotation);
+        # generation runs four TLC processes at a time
+        from concurrent.futures import ThreadPoolExecutor
+        cnt = 130 if q else 3000
+
+        def gen(f):
+            return f, generate(ctx, "c01_" + f, consts(f, [193, 194], ALL, 4, 2, GAS, TGT,
+                                                         prices=(7, 10) if FORKS.index(f) >= 12 else (1, 10)),
+                               simulate=cnt, depth=3000, workers=2 if q else 4)
+        with ThreadPoolExecutor(max_workers=4) as ex:
+            runs = list(ex.map(gen, FORKS))
+        for f, r in runs:
+            res.add_tlc(r)
+            replay(ctx, res, r, "c01_" + f, binary)
+        # exhaustive: every snippet of the library alone (callee with each body), and the nested-revert product
+        for f in (rot(["PRAGUE", "LONDON", "BYZANTIUM", "FRONTIER", "SHANGHAI", "ISTANBUL"], 2) if q else FORKS):
+            r = planned("c01single_" + f, f, [193, 194], P_SINGLE, gas=[300000, 30000] if not q else [300000])
+            replay(ctx, res, r, "c01single_" + f, binary)
+        for f in rot(["CANCUN", "BERLIN", "HOMESTEAD"], 1 if q else 3):
+            r = planned("c01nested_" + f, f, [193, 194], P_NESTED)
+            replay(ctx, res, r, "c01nested_" + f, binary)
     elif pid == "C07":
         # depth-limit probe: all gas is forwarded before Tangerine Whistle, so 1024 levels are affordable
         for f in rot(["HOMESTEAD", "FRONTIER"], 1):
@@ -183,24 +209,40 @@ def run(ctx, pid):
             res.extra["max_depth_reached_in_probe"] = deep
             replay(ctx, res, r, "c07deep_" + f, binary, facets=facets)
         for f in rot(["CANCUN", "BERLIN", "BYZANTIUM", "PRAGUE", "TANGERINE", "SHANGHAI"], 2 if q else 6):
-            r = sim("c07_" + f, f, ["call", "create", "term", "recurse", "log"])
+            r = sim("c07_" + f, f, ["call", "create", "term", "recurse", "log", "store"])
             replay(ctx, res, r, "c07_" + f, binary, facets=facets)
+        # every call kind into every callee body, twice in a row, then one more call: a frame that
+        # does not give its depth back shows at the next callback
+        for f in rot(["BYZANTIUM", "CANCUN", "HOMESTEAD"], 1 if q else 3):
+            r = planned("c07sib_" + f, f, [193, 194], [(194, ["body", "rev"]), (193, ["callS"]), (193, ["call194"]), (193, ["call194"])])
+            replay(ctx, res, r, "c07sib_" + f, binary, facets=facets)
     elif pid in ("C08", "C09"):
         for f in rot(["LONDON", "PRAGUE", "FRONTIER", "ISTANBUL", "SPURIOUS_DRAGON", "CANCUN", "BERLIN", "HOMESTEAD"], 3 if q else 8):
             r = sim(pid + "_" + f, f, ["store", "call", "create", "term", "mem", "env"], prices=(7, 10) if FORKS.index(f) >= 12 else (1, 10))
             replay(ctx, res, r, pid + "_" + f, binary, facets=facets)
+        # refunds against the caps and the Prague floor: every store snippet twice, with every transaction shape
+        for f in (["PRAGUE"] + rot(["LONDON", "ISTANBUL", "BYZANTIUM"], 1 if q else 3)):
+            r = planned(pid + "refund_" + f, f, [193], [(193, ["store"]), (193, ["store"])], variety=(f == "PRAGUE"),
+                        gas=[100000], prices=(10,))
+            replay(ctx, res, r, pid + "refund_" + f, binary, facets=facets)
+        if pid == "C08":
+            for f in rot(["CANCUN", "LONDON", "SPURIOUS_DRAGON", "HOMESTEAD"], 1 if q else 4):
+                r = planned("c08sd_" + f, f, [193, 194], [(194, ["body"]), (193, ["callS"])])
+                replay(ctx, res, r, "c08sd_" + f, binary, facets=facets)
     elif pid == "C10":
         for f in rot(["BYZANTIUM", "CANCUN", "LONDON", "PETERSBURG", "PRAGUE"], 2 if q else 5):
-            r = sim("c10_" + f, f, ["call", "store", "tstore", "log", "create", "term"], maxsnips=5)
+            r = planned("c10_" + f, f, C3, P_STATIC)
             replay(ctx, res, r, "c10_" + f, binary)
+        for f in rot(["CANCUN", "BYZANTIUM", "PRAGUE"], 1 if q else 3):
+            r = sim("c10s_" + f, f, ["call", "store", "tstore", "log", "create", "term"], maxsnips=5)
+            replay(ctx, res, r, "c10s_" + f, binary)
     elif pid == "C21":
         z = {0: 0, 1: 0, 2: 0, 3: 0}
         pres = {"storage": dict(ex=True, bal=0, nonce=0, stor={0: 0, 1: 5, 2: 0, 3: 0}),
                 "nonce": dict(ex=True, bal=0, nonce=1, stor=z), "balance": dict(ex=True, bal=2, nonce=0, stor=z)}
         for f in rot(["PETERSBURG", "LONDON", "CANCUN", "PRAGUE"], 1 if q else 4):
             for pn, pre in pres.items():
-                r = sim("c21_%s_%s" % (f, pn), f, ["create", "term", "store"], n=150 if q else 800, maxsnips=3,
-                        tokens={1000000001: pre})
+                r = planned("c21_%s_%s" % (f, pn), f, [193], [(193, ["createS"])], targets=[193, 0], tokens={1000000001: pre})
                 for db in ("state", "cachedb", "cachedb_ins", "state_nobundle"):
                     replay(ctx, res, r, "c21_%s_%s" % (f, pn), binary, db=db)
     elif pid == "C28":
@@ -214,10 +256,19 @@ def run(ctx, pid):
             replay(ctx, res, r, "c31_" + f, binary, reuse=1)
             replay(ctx, res, r, "c31_" + f, binary, reuse=0)
             replay(ctx, res, r, "c31_" + f, binary, reuse=1, insp="none")
+        # leak probes: transaction 1 writes transient storage / warms / logs, transaction 2 reads
+        for f in rot(["CANCUN", "PRAGUE", "BERLIN"], 1 if q else 3):
+            r = planned("c31leak_" + f, f, [193, 194], [(193, ["tstore", "probe", "log"]), (194, ["tstore", "probe"])],
+                        maxtx=2, targets=[193, 194])
+            replay(ctx, res, r, "c31leak_" + f, binary, reuse=1)
+            replay(ctx, res, r, "c31leak_" + f, binary, reuse=0)
     elif pid == "C34":
-        for f in rot(["BERLIN", "LONDON", "SHANGHAI", "CANCUN", "PRAGUE"], 3 if q else 5):
-            r = sim("c34_" + f, f, ["store", "call", "create", "env", "term"], maxsnips=5)
+        for f in rot(["BERLIN", "LONDON", "SHANGHAI", "CANCUN", "PRAGUE"], 2 if q else 5):
+            r = planned("c34_" + f, f, [193, 194], P_WARM)
             replay(ctx, res, r, "c34_" + f, binary, facets=facets)
+        for f in rot(["SHANGHAI", "BERLIN", "PRAGUE", "CANCUN", "LONDON"], 2 if q else 5):
+            r = sim("c34s_" + f, f, ["store", "call", "create", "probe", "term"], maxsnips=5)
+            replay(ctx, res, r, "c34s_" + f, binary, facets=facets)
     res.exhaustive = False
     res.assumptions += ["behaviours leaving the modelled value domain are cut by the specification and not judged",
                         "transactions are valid by construction (validity is decided by the C02 engine)"]
